@@ -307,3 +307,103 @@ def helper_pairs(R, lib, zs, sv):
     fuzzy_pair(X)
     expand_pair(X)
     match_pair(X)
+    fix_times_pair(X)
+    start_until_pair(X)
+
+
+# ---- the two passes over the sorted transitions -----------------------------------------------------------------------------
+
+def _transition_lists(X, spec):
+    """(C++ transitions, Python transitions) for one abstract list: spec = [(offset minutes, delta minutes, (y, M, d, minutes, suffix))],
+    every transition belonging to one match that runs until 2003-02-01 00:00w"""
+    from .aeval import cxx_object
+    from .pyeval import PObj
+    cm = cxx_object(X.lib, NSX + 'ZoneMatch')
+    cm.attrs['startDateTime'].attrs.update({'yearTiny': -1, 'month': 12, 'day': 1, 'minutes': 0, 'suffix': X.sv['w']})
+    usfx = 'wsu'[(len(spec) + abs(spec[-1][0]) // 15 + abs(spec[-1][1]) // 60) % 3]       # the match ends in wall, standard or UTC time
+    cm.attrs['untilDateTime'].attrs.update({'yearTiny': 3, 'month': 2, 'day': 1, 'minutes': 0, 'suffix': X.sv[usfx]})
+    cts, pts = [], []
+    for i, (off, delta, (y, M, d, mins, sfx)) in enumerate(spec):
+        t = cxx_object(X.lib, NSX + 'Transition')
+        t.oid = 't%d' % i
+        t.attrs['match'] = cm
+        t.attrs['transitionTime'].attrs.update({'yearTiny': y - 2000, 'month': M, 'day': d, 'minutes': mins, 'suffix': X.sv[sfx]})
+        t.attrs['offsetMinutes'] = off
+        t.attrs['deltaMinutes'] = delta
+        cts.append(t)
+        era = PObj(X.zs, 'ZoneEraCooked', {'offsetSeconds': 60 * off, 'rulesDeltaSeconds': 0, 'format': 'X%sT', 'zonePolicy': '-'})
+        rule = PObj(X.zs, 'ZoneRuleCooked', {'deltaSeconds': 60 * delta, 'letter': 'D' if delta else 'S'})
+        pts.append(PObj(X.zs, 'Transition', {'zoneEra': era, 'zoneRule': rule, 'transitionTime': X.ptuple(y, M, d, 60 * mins, sfx),
+                                             'transitionTimeS': None, 'transitionTimeU': None,
+                                             'startDateTime': X.ptuple(1999, 12, 1, 0, 'w'), 'untilDateTime': X.ptuple(2003, 2, 1, 0, usfx),
+                                             'startEpochSecond': None, 'originalTransitionTime': None, 'abbrev': None, 'isActive': True}))
+    return cts, pts
+
+
+def _walk_pair(X, cname, pname, specs, read_c, read_p, what):
+    from .aeval import Ref
+    cf = X.cfn(cname)
+    pf = X.zs.fn(pname)
+    n, diffs = 0, []
+    for spec in specs:
+        cts, pts = _transition_lists(X, spec)
+        ptrs = list(cts)
+        args = []
+        k = 0
+        for (_pn, pt_) in cf.params:
+            args.append(Ref(ptrs, 0) if k == 0 else Ref(ptrs, len(ptrs)))
+            k += 1
+        r = X.ccall(cf, args)
+        oc = r if isinstance(r, tuple) else tuple(read_c(t) for t in cts)
+        q = X.pcall(pname, {[p for p in pf.params if p not in ('self', 'cls')][0]: pts})
+        op = q if isinstance(q, tuple) and q and q[0] == 'raises' else tuple(read_p(t) for t in pts)
+        n += 1
+        if oc != op:
+            diffs.append(('the transitions are %s' % ['%+d/%+d min at %04d-%02d-%02d %02d:%02d%s' % (o_, d_, t_[0], t_[1], t_[2], t_[3] // 60, t_[3] % 60, t_[4]) for o_, d_, t_ in spec], oc, op))
+    _report(X.R, '%s~%s' % (cname, pname), cf, pf, n, diffs, what)
+
+
+def _specs():
+    import itertools
+    base = [(-480, 0), (-480, 60), (60, 0), (60, 60), (330, 0), (345, 0), (-210, 0), (0, 0), (780, 60)]
+    times = [(2001, 3, 11, 120, 'w'), (2001, 1, 1, 0, 'w'), (2001, 11, 4, 120, 'w'), (2001, 12, 31, 1440, 'w'), (2002, 3, 1, 0, 'w'), (2000, 2, 29, 1380, 'w')]
+    out = []
+    for a, b in itertools.permutations(base, 2):
+        for t1, t2 in (((2000, 12, 1, 0, 'w'), times[0]), ((2000, 12, 1, 0, 'w'), times[1]), (times[1], times[2]), (times[2], times[3]), (times[5], times[4])):
+            out.append([(a[0], a[1], t1), (b[0], b[1], t2)])
+    for a, b, c in itertools.permutations(base[:5], 3):
+        out.append([(a[0], a[1], (2000, 12, 1, 0, 'w')), (b[0], b[1], times[0]), (c[0], c[1], times[2])])
+    out.append([(60, 0, (2000, 12, 1, 0, 'w'))])
+    return out
+
+
+def start_until_pair(X):
+    """generateStartUntilTimes / _generate_start_until_times on lists of one to three transitions whose offsets differ in every
+    direction and whose times sit at midnight, at 24:00, on New Year and on 29 February: start time, until time and start epoch
+    seconds of every transition"""
+    def rc(t):
+        a = t.attrs
+        return (X.read_ctuple(a['startDateTime']), X.read_ctuple(a['untilDateTime']), a['startEpochSeconds'])
+
+    def rp(t):
+        a = t.attrs
+        return (X.read_ptuple(a['startDateTime']), X.read_ptuple(a['untilDateTime']), a['startEpochSecond'])
+    _walk_pair(X, 'generateStartUntilTimes', 'ZoneSpecifier._generate_start_until_times', _specs(), rc, rp,
+               'one to three transitions, offsets changing in every direction, times at the edges of day, month and year')
+
+
+def fix_times_pair(X):
+    """fixTransitionTimes / _fix_transition_times: the w / s / u forms of every transition time, taken with the offsets of the
+    transition before it; transition times carry every suffix"""
+    def rc(t):
+        a = t.attrs
+        return tuple(X.read_ctuple(a[k]) for k in ('transitionTime', 'transitionTimeS', 'transitionTimeU'))
+
+    def rp(t):
+        a = t.attrs
+        return tuple(X.read_ptuple(a[k]) for k in ('transitionTime', 'transitionTimeS', 'transitionTimeU'))
+    specs = []
+    for sp in _specs()[::3]:
+        for sfx in 'wsu':
+            specs.append([(o_, d_, (t_[0], t_[1], t_[2], t_[3], sfx if i else 'w')) for i, (o_, d_, t_) in enumerate(sp)])
+    _walk_pair(X, 'fixTransitionTimes', 'ZoneSpecifier._fix_transition_times', specs, rc, rp, 'transition times with every suffix after a transition with other offsets')
